@@ -106,7 +106,7 @@ def unquote_tlc(s):
     return s.replace('\\"', '"').replace("\\\\", "\\")
 
 # ---------------------------------------------------------------- real code
-def run_vh(args, timeout=900, binary=None, ok_codes=(0, 97)):
+def run_vh(args, timeout=7200, binary=None, ok_codes=(0, 97)):
     binary = binary or os.path.join(BUILD, "vh")
     try:
         p = subprocess.run([binary] + args, capture_output=True, text=True, timeout=timeout, env=GOENV)
